@@ -197,7 +197,10 @@ class Prop:
 
     def run_save(self, desc, tree, U):
         skw, _lkw, _cls = S.resolve_opts(desc)
+        import copy
+        skw_snap = copy.deepcopy({k: v for k, v in skw.items() if k in ("key_map", "value_map", "meta")})
         fail = None
+        finding = None
         try:
             fp = io.StringIO()
             tree.save(fp, **skw)
@@ -218,13 +221,19 @@ class Prop:
                 fail = f"writer: document differs from the documented layout: got {json.dumps(got)[:600]} expected {json.dumps(exp)[:600]}"
         if exp is not None and got is not None and not fail:
             fail = self.more_writer_checks(desc, tree, skw, got)
+        if not fail:
+            now = {k: v for k, v in skw.items() if k in skw_snap}
+            if now != skw_snap:
+                # D90: TypedTree.save writes the collected kinds into the caller's value_map dict
+                fail = f"D90: save() modified the dicts handed in by the caller: {now} (were {skw_snap})"
+                finding = "D90"
         fail = fail or S.class_defaults_changed()
         coq = f"CSave {S.coq_sopts(desc, tree, U)} {H.coq_forest(tree._root, U)}"
         if desc.get("outside"):
             coq, obs = "CSaveRaw" + coq[5:], obs[0]
         nodes = (got or {}).get("nodes", [])
         refs = sum(1 for e in nodes if isinstance(e[1], int))
-        return Case(desc=desc, coq_input=coq, impl_obs=obs, oracle_fail=fail,
+        return Case(desc=desc, coq_input=coq, impl_obs=obs, oracle_fail=fail, finding=finding,
                     nontrivial=refs > 0 or any(isinstance(e[1], dict) for e in nodes),
                     key=H.digest([desc.get("nodes"), desc.get("km"), desc.get("vm"), desc.get("typed"), desc.get("mapper"), "s"]),
                     stats=dict(kind="save", nodes=len(nodes), refs=min(refs, 4), km=desc.get("km"), vm=desc.get("vm"),
@@ -443,6 +452,8 @@ CORPUS = [
     # clones of differing kind, clone nested below its first occurrence
     dict(kind="save", typed=True, univ=["s:x", "s:y", "e:1"], nodes=[[0, "a", None, [[1, "a", None, [[0, "b", None, []]]]]], [2, "a", None, [[0, "a", None, []], [2, "b", None, []]]]], km="custom", vm="custom", mapper="cb"),
     dict(kind="load", typed=True, univ=["s:x", "s:y", "e:1"], nodes=[[0, "a", None, [[1, "a", None, [[0, "b", None, []]]]]], [2, "a", None, [[0, "a", None, []], [2, "b", None, []]]]], km="custom", vm="custom", mapper="cb"),
+    # D90: TypedTree.save(value_map=<dict without "kind">) writes the kind list into the caller's dict
+    dict(kind="save", typed=True, univ=["s:x", "s:y"], nodes=[[0, "a", None, [[1, "b", None, []]]]], km="true", vm="custom_nokind", mapper="cb", meta=None, calc=None),
     # D40 (known): identity-hashed data, clone of another kind
     dict(kind="load", typed=True, univ=["p:1", "s:y"], nodes=[[0, "a", None, []], [1, "a", None, [[0, "b", None, []]]]], km="true", vm="true", mapper="cb"),
 ]
